@@ -110,6 +110,8 @@ type Thread struct {
 	Result    Value
 	Sleeping  bool
 	SleepSnap int
+	PassStart int
+	CleanAt   int
 }
 
 func (t *Thread) clone() *Thread {
